@@ -40,22 +40,90 @@ func init() {
 	nop := func(m *M, fn *ssa.Function, a []Value, retTo ssa.Value) Value { return zeroResults(fn) }
 
 	// ----- strings (bounded byte-vector strings, see bstr.go) -----
-	reg("strings.HasPrefix", func(m *M, fn *ssa.Function, a []Value, r ssa.Value) Value {
+	reg("strings.HasPrefix|internal/stringslite.HasPrefix", func(m *M, fn *ssa.Function, a []Value, r ssa.Value) Value {
 		return bHasPrefix(sv(a[0]), sv(a[1]))
 	})
-	reg("strings.HasSuffix", func(m *M, fn *ssa.Function, a []Value, r ssa.Value) Value {
+	reg("strings.HasSuffix|internal/stringslite.HasSuffix", func(m *M, fn *ssa.Function, a []Value, r ssa.Value) Value {
 		return bHasSuffix(sv(a[0]), sv(a[1]))
 	})
 	reg("strings.Contains", func(m *M, fn *ssa.Function, a []Value, r ssa.Value) Value {
 		return bContains(sv(a[0]), sv(a[1]))
 	})
-	reg("strings.Index", func(m *M, fn *ssa.Function, a []Value, r ssa.Value) Value {
+	reg("strings.Index|internal/stringslite.Index", func(m *M, fn *ssa.Function, a []Value, r ssa.Value) Value {
 		return bIndex(sv(a[0]), sv(a[1]))
 	})
-	reg("strings.IndexByte", func(m *M, fn *ssa.Function, a []Value, r ssa.Value) Value {
+	reg("strings.Cut|internal/stringslite.Cut", func(m *M, fn *ssa.Function, a []Value, r ssa.Value) Value {
+		s, sep := sv(a[0]), sv(a[1])
+		found := bContains(s, sep)
+		i := smt.Extract(lw-1, 0, bIndex(s, sep))
+		// when not found i = 0xffff: guard the slices
+		i0 := smt.Ite(found, i, lc(0))
+		before := bIte(found, bSlice(s, lc(0), i0), s)
+		lo := smt.Ite(found, smt.BVAdd(i0, bLen(sep)), bLen(s))
+		after := bSlice(s, lo, bLen(s))
+		return TupleV{before, after, found}
+	})
+	reg("strings.LastIndex", func(m *M, fn *ssa.Function, a []Value, r ssa.Value) Value {
+		return bLastIndex(sv(a[0]), sv(a[1]))
+	})
+	reg("strings.LastIndexByte", func(m *M, fn *ssa.Function, a []Value, r ssa.Value) Value {
+		return bLastIndex(sv(a[0]), strB([]*smt.Term{tv(a[1])}))
+	})
+	reg("strings.Count", func(m *M, fn *ssa.Function, a []Value, r ssa.Value) Value {
+		sub := sv(a[1])
+		if sub.Len != nil || len(sub.Bytes) != 1 {
+			abortf("strings.Count with a separator that is not a single byte")
+		}
+		return bCountByte(sv(a[0]), sub.Bytes[0])
+	})
+	// strings.Builder: the accumulated string lives in an aux cell attached to the Builder object
+	builderGet := func(m *M, b Value) (PtrV, StrV) {
+		k := m.auxKeyOf(b, "strings.Builder")
+		id, ok := m.st.Aux[k]
+		if !ok {
+			id = m.st.alloc(strC(""), nil)
+			m.st.setAux(k, id)
+		}
+		return PtrV{Obj: id}, m.st.Heap[id].(StrV)
+	}
+	reg("(*strings.Builder).WriteString", func(m *M, fn *ssa.Function, a []Value, r ssa.Value) Value {
+		p, cur := builderGet(m, a[0])
+		m.st.setObj(p.Obj, bConcat(cur, sv(a[1])))
+		return TupleV{smt.ZeroExt(64-lw, bLen(sv(a[1]))), IfaceV{}}
+	})
+	reg("(*strings.Builder).WriteByte", func(m *M, fn *ssa.Function, a []Value, r ssa.Value) Value {
+		p, cur := builderGet(m, a[0])
+		m.st.setObj(p.Obj, bConcat(cur, strB([]*smt.Term{tv(a[1])})))
+		return IfaceV{}
+	})
+	reg("(*strings.Builder).Write", func(m *M, fn *ssa.Function, a []Value, r ssa.Value) Value {
+		p, cur := builderGet(m, a[0])
+		es := m.sliceElems(a[1].(SliceV))
+		bs := make([]*smt.Term, len(es))
+		for i, e := range es {
+			bs[i] = tv(e)
+		}
+		m.st.setObj(p.Obj, bConcat(cur, strB(bs)))
+		return TupleV{smt.BVC(64, uint64(len(bs))), IfaceV{}}
+	})
+	reg("(*strings.Builder).String", func(m *M, fn *ssa.Function, a []Value, r ssa.Value) Value {
+		_, cur := builderGet(m, a[0])
+		return cur
+	})
+	reg("(*strings.Builder).Len", func(m *M, fn *ssa.Function, a []Value, r ssa.Value) Value {
+		_, cur := builderGet(m, a[0])
+		return smt.ZeroExt(64-lw, bLen(cur))
+	})
+	reg("(*strings.Builder).Grow", func(m *M, fn *ssa.Function, a []Value, r ssa.Value) Value { return nil })
+	reg("(*strings.Builder).Reset", func(m *M, fn *ssa.Function, a []Value, r ssa.Value) Value {
+		p, _ := builderGet(m, a[0])
+		m.st.setObj(p.Obj, strC(""))
+		return nil
+	})
+	reg("strings.IndexByte|internal/stringslite.IndexByte", func(m *M, fn *ssa.Function, a []Value, r ssa.Value) Value {
 		return bIndex(sv(a[0]), strB([]*smt.Term{tv(a[1])}))
 	})
-	reg("strings.TrimSuffix", func(m *M, fn *ssa.Function, a []Value, r ssa.Value) Value {
+	reg("strings.TrimSuffix|internal/stringslite.TrimSuffix", func(m *M, fn *ssa.Function, a []Value, r ssa.Value) Value {
 		s, suf := sv(a[0]), sv(a[1])
 		has := bHasSuffix(s, suf)
 		nl := smt.Ite(has, smt.BVSub(bLen(s), bLen(suf)), bLen(s))
@@ -64,7 +132,7 @@ func init() {
 		}
 		return StrV{IsB: true, Bytes: s.Bytes, Len: nl}
 	})
-	reg("strings.TrimPrefix", func(m *M, fn *ssa.Function, a []Value, r ssa.Value) Value {
+	reg("strings.TrimPrefix|internal/stringslite.TrimPrefix", func(m *M, fn *ssa.Function, a []Value, r ssa.Value) Value {
 		s, pre := sv(a[0]), sv(a[1])
 		has := bHasPrefix(s, pre)
 		lo := smt.Ite(has, bLen(pre), lc(0))
@@ -365,6 +433,12 @@ func init() {
 		v := m.freshReal("rand")
 		m.st.PC = append(m.st.PC, smt.RGe(v, smt.RealF(0)), smt.RLt(v, smt.RealF(1)))
 		return v
+	})
+
+	// message rendering of k8s field paths / errors: opaque text (messages are not the subject of any property)
+	reg("(*k8s.io/apimachinery/pkg/util/validation/field.Path).String|(*k8s.io/apimachinery/pkg/util/validation/field.Error).Error|(*k8s.io/apimachinery/pkg/util/validation/field.Error).ErrorBody", func(m *M, fn *ssa.Function, a []Value, r ssa.Value) Value {
+		m.st.NextObj++
+		return strC(fmt.Sprintf("<field-text#%d>", m.st.NextObj))
 	})
 
 	// ----- misc no-ops -----
